@@ -3,6 +3,7 @@ package main
 import (
 	"encoding/json"
 	"fmt"
+	"strings"
 	"time"
 
 	"github.com/brewlin/net-protocol/pkg/seqnum"
@@ -16,11 +17,11 @@ import (
 func init() {
 	engine.Register(&engine.Check{
 		ID:        "C14",
-		Technique: "exhaustive enumeration (depth-1 explicit-state search): all 2^32 second operands from each base point, every seqnum function compared with the serial-number definition computed on 64-bit distances",
+		Technique: "exhaustive enumeration: all 2^32 second operands from each base point, every seqnum function compared with the serial-number definition computed on 64-bit distances; stateless model checking (deviation-bounded DFS, raw peer) of the TCP users of the arithmetic with wrap-adjacent initial sequence numbers",
 		Rule:      "for each base b in the base set and every w in [0,2^32): LessThan/LessThanEq both ways, Add/Size/UpdateForward inverse laws, InRange/InWindow for each size in the size set (value moving and range moving), Overlap for each pair of window sizes in [1,2^30]; distinct = distinct operand tuple; non-trivial = all",
 		Assumes: []string{
 			"Overlap is checked for non-empty windows no larger than 2^30 (the largest TCP window, RFC 7323); with an empty window or a combined span >= 2^31 serial arithmetic cannot order the edges (stated up front in DESIGN.md §5 C14)",
-			"the 'every TCP property holds with wrap-adjacent ISS' half is exercised by the TCP checks (C01-C05) whose scenario sets include initial sequence numbers just below 2^31 and 2^32",
+			"the TCP half re-runs the stream and window oracles of C01/C04 against the raw peer with both initial sequence numbers placed 1..70 below 2^31 and 2^32 (deviation budget 1, thorough 2): wrap inside the handshake, inside a segment, between segments, with out-of-order and overlapping data pending",
 		},
 		Jobs:      c14Jobs,
 		Run:       c14Run,
@@ -47,6 +48,39 @@ func c14Jobs(tier string) []string {
 	for _, b := range bases {
 		for c := 0; c < c14Chunks; c++ {
 			jobs = append(jobs, fmt.Sprintf("%d:%d", b, c))
+		}
+	}
+	return append(jobs, c14TCPJobs(tier)...)
+}
+
+// The TCP half of the property: the users of the arithmetic. The stream / window / handshake
+// oracles of C01, C03 and C04 are re-run with initial sequence numbers placed so that the
+// stack's and the peer's sequence spaces cross 2^31 and 2^32 at every interesting place: in
+// the handshake, in the first segment, in the middle of a segment, between two segments, and
+// while out-of-order / overlapping / re-segmented data is pending.
+func c14TCPJobs(tier string) []string {
+	var jobs []string
+	add := func(s string, shards int) {
+		for i := 0; i < shards; i++ {
+			jobs = append(jobs, fmt.Sprintf("raw:%d/%d:%s", i, shards, s))
+		}
+	}
+	// wrap points relative to ISS+1 (first data byte): 0, inside segment 1, at the boundary
+	// of segments 1/2, inside segment 2, beyond everything sent
+	offs := []uint32{1, 5, 21, 30, 70}
+	if tier == "thorough" {
+		offs = []uint32{1, 2, 5, 20, 21, 22, 30, 41, 50, 70}
+	}
+	for _, edge := range []uint64{1 << 32, 1 << 31} {
+		for _, o := range offs {
+			piss := uint32(edge - uint64(o))
+			iss := uint32(edge - uint64(o) - 3)
+			b := 1
+			add(fmt.Sprintf("or=sw,devs=kwhlo,mss=24,w=72,pd=3x20,iss=%d,piss=%d,b=%d", iss, piss, b), 2)
+			if tier == "thorough" {
+				add(fmt.Sprintf("or=sw,devs=kwhloe,mss=24,w=72,pd=3x20,psack=1,sack=1,ts=1,iss=%d,piss=%d,b=1", iss, piss), 2)
+				add(fmt.Sprintf("or=sw,devs=kwhlo,mss=24,w=48,pd=2x20,iss=%d,piss=%d,b=2", iss, piss), 16)
+			}
 		}
 	}
 	return jobs
@@ -127,6 +161,16 @@ func c14CheckOne(b, w uint32, sizes, wins []uint32, fail func(c14Fail)) int64 {
 
 func c14Run(job, tier string, deadline time.Time) *engine.Result {
 	r := &engine.Result{Exhaustive: true}
+	if strings.HasPrefix(job, "raw:") {
+		rawRunJob(r, job, deadline)
+		for i := range r.Violations {
+			v := &r.Violations[i]
+			v.Detail = fmt.Sprintf("with sequence numbers crossing 2^31 / 2^32 (%s): [%s] %s", job, v.Property, v.Detail)
+			v.Key = "tcp-wrap:" + v.Key
+			v.Property = "C14"
+		}
+		return r
+	}
 	var b uint32
 	var chunk int
 	fmt.Sscanf(job, "%d:%d", &b, &chunk)
@@ -189,6 +233,15 @@ func (f c14Fail) opW(b uint32) uint32 {
 }
 
 func c14Replay(rp json.RawMessage) *engine.Violation {
+	var er engine.EnvReplay
+	if json.Unmarshal(rp, &er) == nil && strings.HasPrefix(er.Job, "raw:") {
+		v := rawReplay(er)
+		if v != nil {
+			v.Key = "tcp-wrap:" + v.Key
+			v.Property = "C14"
+		}
+		return v
+	}
 	var p struct {
 		Base, W uint32
 		Tier    string
